@@ -153,7 +153,8 @@ impl PlugCommand {
         let socket = graph.register_package(socket)?;
 
         // Collect the plugs by their names
-        let mut plugs_by_name = std::collections::HashMap::<_, Vec<_>>::new();
+        // (insertion-ordered, so that the plugs are applied in command line order)
+        let mut plugs_by_name = indexmap::IndexMap::<_, Vec<_>>::new();
         for plug in self.plugs.iter() {
             let name = match plug {
                 #[cfg(feature = "registry")]
